@@ -76,6 +76,19 @@ package node_manager
 //@   assert[c32-counted-address] after "_, ok := consensusSigns.SignsMap[types.AddressFromPubKey(publicKey)]" : ok <==> has(consensusSigns.SignsMap, addrOfKey(pubKeyOfBytes(hexDecode(key))))
 //@   loop 1 invariant 0 <= num && num <= sum && sum <= it1
 
+// approvals collected for (method, input) are dropped when the request they were given for is withdrawn or replaced
+//@ func ClearConsensusSigns
+//@   property C32
+//@   mode abstract
+//@   requires native != nil
+//@   modifies Store
+//@   ghost var sk KeyT
+//@   ghost var skh common.Uint256
+//@   set after "key := sha256.Sum256(message)" : sk := signKey(key)
+//@   set after "key := sha256.Sum256(message)" : skh := key
+//@   ensures[c32-key] sk == signKey(skh)
+//@   ensures[c32-cleared] Store == upd(old(Store), sk, None)
+
 //@ func GetCurConOperator
 //@   property C18
 //@   mode abstract
@@ -111,7 +124,7 @@ package node_manager
 //@   callsite[c34-registers-param] putPeerApply#1 requires arg1 == params
 
 //@ func UnRegisterCandidate
-//@   property C18
+//@   property C18, C32
 //@   mode abstract
 //@   requires native != nil && native.tx != nil
 //@   modifies Store
@@ -121,6 +134,12 @@ package node_manager
 //@   set before "peerPubkeyPrefix, err := hex.DecodeString(params.PeerPubkey)" : ownerOK := peer != nil && peer.Address == params.Address
 //@   callsite[c18-owner] ValidateOwner#1 requires arg1 == params.Address
 //@   ensures[c18-witness] Store != old(Store) ==> wit && ownerOK
+//@   -- C32: withdrawing the application also drops the approvals given for it (a later application for the same key
+//@   -- is a different request)
+//@   ghost var cleared bool = false
+//@   set after "ClearConsensusSigns(native, APPROVE_CANDIDATE, []byte(params.PeerPubkey))" : cleared := true
+//@   callsite[c32-approvals-of-this-request] ClearConsensusSigns#1 requires arg1 == "approveCandidate" && bytes(arg2) == bytes(params.PeerPubkey)
+//@   ensures[c32-withdrawn-approvals-dropped] r1 == nil ==> cleared
 
 //@ func ApproveCandidate
 //@   property C33, C18, C32, C34
